@@ -54,7 +54,19 @@ class Contract:
                  assumed=None, after_loop=None, hints=None, rt_only=None, ghost_vars=None, ghost_after=None,
                  exit_hints=None, vec_counts=None, after_assign=None, abstract_mul=False, entry_hints=None,
                  unroll=None, fields=None, fixed=None, fragment=None, call_hints=None, focus=None, may_raise=None,
-                 needed_by=None):
+                 needed_by=None, opaque_calls=None, local_types=None, rt_harness=None, opaque_glue=False):
+        # opaque_glue: attribute reads / subscripts of unmodelled objects and comprehensions the engine cannot model
+        # evaluate to unmodelled objects (their possible exceptions are NOT analysed: listed as an assumption)
+        self.opaque_glue = opaque_glue
+        # rt_harness(raw_args) -> list of environments: runs the REAL enclosing function with the opaque callees stubbed
+        # and returns the observable values the ensures clauses speak about (run-time tier / replay of fragments)
+        self.rt_harness = rt_harness
+        # opaque_calls: {callee name: {"ret": "obj"} | {"fn": NAME, "args": [positions], "ret": "real", "below_inf": bool}}
+        # calls the fragment treats as opaque: a constructor returning an unmodelled object, or a method whose result is
+        # the uninterpreted function NAME of the listed (integer-id) arguments (ASSUMED pure: listed as an assumption)
+        self.opaque_calls = dict(opaque_calls or {})
+        # local_types: {local name: type} element type of a local list that starts as the empty literal
+        self.local_types = dict(local_types or {})
         self.may_raise = list(may_raise or [])
         # needed_by: {requires clause name: [substrings of obligation names]} — a (typically non-linear, quantified)
         # precondition that only the listed obligations need; the first solver attempt of every other obligation omits it
